@@ -618,7 +618,13 @@ static void do_open (void)
 		ev_info (&H->info) ; ev_err (h) ; ev_state (h) ;
 		}
 	else
-	{	/* a failed open must leave nothing behind */
+	{	/* what was offered : length of the input (known findings about tiny files are keyed by it) */
+		if (mode != SFM_WRITE)
+		{	long long il = mf->len ;
+			if (route == R_PATH) { struct stat sb ; if (stat (H->path, &sb) == 0) il = (long long) sb.st_size ; }
+			ev_int ("flen", il) ;
+			}
+		/* a failed open must leave nothing behind */
 		/* pipe route first : stop the helper thread (it owns a small heap block and the other end of the pipe) */
 		if (H->th_on)
 		{	if (route == R_PIPE && mode == SFM_READ)
